@@ -170,3 +170,21 @@ CHECKS["C04"] = {
     ],
     "floors": {"C04/client_cancel": {"inflight_2plus": 0.15, "write_parked_at_cancel": 0.15, "soft": 0.3, "hard": 0.3, "late_ops": 0.3}},
 }
+
+CHECKS["C01"] = {
+    "pkg": "./conn",
+    "level": "exploration",
+    "rule": ("A case is a configuration (split size -1/0/1/2/7/64/1000, writer buffer 1/16/100/default, manual or automatic flushing, soft/hard cancel, stream buffer limit), 1..3 consecutive RPCs in one of "
+             "three shapes (sequential; sender and receiver on separate goroutines on both ends; two concurrent senders per side), message sizes drawn around the split size and writer buffer boundaries, "
+             "an optional closer (Close or cancel from another goroutine), optionally 1..3 scheduling points held (including the consumer parked inside Unmarshal while it borrows the read buffer), and up to 400 director "
+             "choices (1-byte/7-byte/half/whole deliveries and accepts, grants, releases). Oracle: every received payload is self-describing (rpc, direction, sender, sequence, CRC) and must be the next "
+             "one of its sender (no reorder/duplicate/corruption/foreign message); a skipped message must have a failed send; with automatic flushing a send that returned nil has its final frame inside the bytes "
+             "the transport had taken at that instant (parsed by the reference parser); on undisturbed RPCs in flush mode every successful send is received and each drain ends with io.EOF. "
+             "Non-trivial: a multi-frame message, concurrent senders/receivers, or the consumer parked mid-unmarshal. Distinct by action trace + programs."),
+    "assumptions": E3_ASSUME + ["completeness is asserted only for RPCs nobody closes, cancels or force-closes; the explicit-flush form of the guarantee (ManualFlush) only on such RPCs",
+                                "reader MaximumBufferSize is left at its default, which every generated message fits"],
+    "subs": [
+        {"test": "TestC01Delivery", "prop": "C01/delivery", "quick": 8000, "thorough": 300000, "shards_quick": 16, "shards_thorough": 16, "gomaxprocs": 1},
+    ],
+    "floors": {"C01/delivery": {"multi_frame_message": 0.3, "concurrent_senders_receivers": 0.4, "graceful_rpc": 0.3, "early_end": 0.2, "@nontrivial": 0.5}},
+}
